@@ -8,6 +8,7 @@
 (*   "only_retx"  in every round only the j-th copy is answered (j<=B+1)   *)
 (*   "fail"       every DWR is answered with a failing Result-Code         *)
 (*   "none"       no DWR is answered                                       *)
+(*   "dup"        every DWR is answered with two success DWAs              *)
 (* sync = TRUE: the answer is delivered and handled before the transport   *)
 (* write of the DWR returns (the peer answered every DWR all the same).    *)
 (* A round = the copies of one DWR (same hop-by-hop id).                   *)
@@ -16,7 +17,7 @@ EXTENDS Integers, Sequences, TLC
 
 Closes(s) == s.kind \in {"stop_after", "fail", "none"}
 \* copies expected in round r (1-based)
-Copies(s, r) == CASE s.kind = "all" -> 1
+Copies(s, r) == CASE s.kind \in {"all", "dup"} -> 1
                   [] s.kind = "only_retx" -> s.j
                   [] s.kind = "stop_after" -> IF r <= s.n THEN 1 ELSE s.budget + 1
                   [] OTHER -> s.budget + 1
